@@ -45,14 +45,17 @@ def build_behaviours():
 
 
 BUILD_BEH = build_behaviours()
+_PAD = "".join(f"stale_key_{i} = \"stale value {i} {'x' * 40}\"\n" for i in range(12))
+# stale outputs are LONGER than anything the runtime writes: an in-place overwrite that does not
+# truncate leaves trailing bytes/keys behind
 STALE = {
-    "plan.toml": b"stale = true\n",
-    "layers/launch.toml": b"# stale launch\n",
-    "layers/store.toml": b"[metadata]\nold = 1\n",
-    "layers/build.sbom.cdx.json": b"stale-build-cdx",
-    "layers/build.sbom.spdx.json": b"stale-build-spdx",
-    "layers/launch.sbom.spdx.json": b"stale-launch-spdx",
-    "layers/launch.sbom.syft.json": b"stale-launch-syft",
+    "plan.toml": ("stale = true\n" + _PAD).encode(),
+    "layers/launch.toml": ("# stale launch\n" + _PAD).encode(),
+    "layers/store.toml": ("[metadata]\nold = 1\n" + _PAD).encode(),
+    "layers/build.sbom.cdx.json": b"stale-build-cdx" * 20,
+    "layers/build.sbom.spdx.json": b"stale-build-spdx" * 20,
+    "layers/launch.sbom.spdx.json": b"stale-launch-spdx" * 20,
+    "layers/launch.sbom.syft.json": b"stale-launch-syft" * 20,
 }
 OUTPUTS = list(STALE.keys())
 
@@ -200,7 +203,7 @@ def judge(w, cfg):
                     bad("plan-not-toml", f"build plan is not valid TOML: {e}")
                 if doc is not None:
                     want = {"provides": [{"name": "a"}], "requires": [{"name": "b"}], "or": [{"provides": [{"name": "c"}]}]}
-                    if norm_plan(doc) != norm_plan(want):
+                    if norm_plan(doc) != norm_plan(want) or set(doc) - {"provides", "requires", "or"}:
                         bad("plan-content", f"build plan on disk {doc} differs from the returned plan {want}")
         elif beh == "fail":
             if code != 100:
@@ -254,10 +257,10 @@ def judge(w, cfg):
                 procs = doc.get("processes", [])
                 ok = (len(procs) == 1 and procs[0].get("type") == "web" and procs[0].get("command") == ["run"] and procs[0].get("args", []) == ["a b"]
                       and procs[0].get("default", False) is True and doc.get("labels") == [{"key": "k", "value": "v"}])
-                if not ok:
+                if not ok or set(doc) - {"processes", "labels", "slices"}:
                     bad("launch-content", f"launch.toml {doc} differs from the returned launch configuration")
             else:
-                if doc.get("metadata") != STORE:
+                if doc.get("metadata") != STORE or set(doc) != {"metadata"}:
                     bad("store-content", f"store.toml {doc} differs from the returned store {STORE}")
         elif got != want:
             provided = rel in [f"layers/build.sbom.{SBOM_EXT[f]}" for f, _ in BUILD_SBOMS[bs]] + [f"layers/launch.sbom.{SBOM_EXT[f]}" for f, _ in LAUNCH_SBOMS[ls]]
